@@ -16,8 +16,9 @@ RULE = ("every strictly increasing array over {0..7} and over {-3..4} (bounded l
         "affine images with queries at, +-1 ulp around, between and beyond the elements. An outcome signature is "
         "(function, len(x), returned index tuple); non-trivial = the returned indices are not all the same index "
         "or a not-valid marker (-1 / len(x)) occurs")
-ASSUMPTIONS = ["'closest' on non-dyadic floats: when the two exact distances differ by < 4 ulp both neighbours are "
-               "accepted (the code subtracts in floating point); never on the dyadic lattice",
+ASSUMPTIONS = ["'closest': the nearest element by exact distance is demanded; where comparing the two correctly rounded "
+               "floating-point distances gives the other neighbour (possible only when the exact distances differ by less "
+               "than the rounding of the subtractions) that neighbour is accepted as well; never on the dyadic lattice",
                "inputs outside the alphabets (NaN, unsorted queries, huge arrays) are not covered"]
 ANCHORS = {"sorted_array_utils.py": [(347, 378), (410, 444), (471, 511), (543, 549)]}
 EXPLANATION = "exhaustive enumeration of the bounded input lattice against the bisect definition"
@@ -164,6 +165,11 @@ def make_float_body(arrays, maxq):
         name, img = ctx.choose(IMAGES, "image")
         fill = ctx.choose([True, False], "fill")
         xf = [img(float(v)) for v in x]
+        pair = ctx.choose(["none", "first", "last"], "adjacent-floats")
+        if pair != "none":
+            # two elements one ulp apart (the array is still strictly increasing)
+            j = 0 if pair == "first" else len(xf) - 1
+            xf = sorted(set(xf + [math.nextafter(xf[j], math.inf)]))
         if any(b <= a for a, b in zip(xf[:-1], xf[1:])):
             ctx.note("filtered_out")
             return
